@@ -292,10 +292,7 @@ class Verdict:
         if amount == "zeroing":
             ok = True
         elif isinstance(amount, tuple):
-            if is_const(amount, 0):
-                ok = True
-            elif sub(amount, traced) or amount == traced:
-                ok = True
+            ok = amount_is_traced(amount, traced, b, ev)
         if not ok:
             eng.violate("PROV-1", "lower-amount-not-from-trace", "group teardown lowers the strong count of a member by %s, which does not derive from the count the trace attributed to that member (the orphan test compared `strong` with that traced count)" % (
                 show(amount)[:160] if isinstance(amount, tuple) else "one per member"), ev.b, st)
@@ -328,6 +325,35 @@ class Verdict:
                     return ("bin", "Sub", src[2], src[1])
                 return None
         return None
+
+
+def amount_is_traced(a, traced, box, ev):
+    """Accepted forms of a group-lowering amount: the traced count of the same element, 0, the minimum of
+    such an amount and the member's own strong count, or `strong - traced` as the stored value."""
+    if is_const(a, 0):
+        return True
+    if a == traced or a == mk_deref(traced):
+        return True
+    if a[0] == "call" and a[2] in ("core::cmp::Ord::min", "core::cmp::min") and len(a[3]) == 2:
+        x, y = a[3]
+        def is_strong(e):
+            g = counter_read(e)
+            return g is not None and g[1] == box and g[2] == "strong"
+        if is_strong(x):
+            return amount_is_traced(y, traced, box, ev)
+        if is_strong(y):
+            return amount_is_traced(x, traced, box, ev)
+        return amount_is_traced(x, traced, box, ev) and amount_is_traced(y, traced, box, ev)
+    # a direct write `strong - amount` / saturating variants
+    if a[0] == "bin" and a[1] in ("Sub", "SubUnchecked"):
+        g = counter_read(a[2])
+        if g is not None and g[1] == box and g[2] == "strong":
+            return amount_is_traced(a[3], traced, box, ev)
+    if a[0] == "call" and a[2].startswith("core::num::<impl usize>::") and a[2].rsplit("::", 1)[1] in ("saturating_sub", "wrapping_sub") and len(a[3]) == 2:
+        g = counter_read(a[3][0])
+        if g is not None and g[1] == box and g[2] == "strong":
+            return amount_is_traced(a[3][1], traced, box, ev)
+    return False
 
 
 class Trace:
@@ -432,6 +458,8 @@ class Trace:
                 tb = src[1]
                 if any(f[0] == "expanded" and f[2] == tb for f in st.flags):
                     E = mk_field(("variant", inner, "Some", 1), "0", "")
+                    if src[-1]:
+                        eng.violate("GATE-7", "table-iteration-restricted:%s" % src[-1][0][0], "the trace walks an expanded node's link table through `%s`: entries that are skipped are invisible to the orphan test" % src[-1][0][0], b, st)
                     eng.obl("GATE-7", "table-element", b)
                     return add(st, ("elem_pending", E, b))
         return None
